@@ -1197,6 +1197,21 @@ impl MDL {
             }
         }
 
+        // Every section the header declares (including the index padding, which is never
+        // written above) has to lie inside the file.
+        let mut end = buffer.len() as u64;
+        for l in 0..3 {
+            end = end.max(
+                self.file_header.vertex_offsets[l] as u64
+                    + self.file_header.vertex_buffer_size[l] as u64,
+            );
+            end = end.max(
+                self.file_header.index_offsets[l] as u64
+                    + self.file_header.index_buffer_size[l] as u64,
+            );
+        }
+        buffer.resize(end as usize, 0);
+
         Some(buffer)
     }
 }
